@@ -24,8 +24,7 @@ VERIF = os.path.dirname(os.path.dirname(os.path.abspath(__file__)))
 DEFAULT_SEED = 20261004
 
 
-class RunTimeout(Exception):
-    pass
+from .watchdog import RunTimeout  # noqa: E402
 
 
 class HarnessError(Exception):
@@ -77,11 +76,19 @@ def _alarm(signum, frame):
     raise RunTimeout()
 
 
+def _arm(seconds):
+    signal.setitimer(signal.ITIMER_PROF, seconds)
+    signal.setitimer(signal.ITIMER_REAL, seconds * 15)
+
+
 def _worker(args):
     pid, tier, base, start, stride, n_total, deadline, run_timeout = args
     faulthandler.enable()
     mod = load_prop(pid)
+    # the per-run limit counts CPU time of this process (ITIMER_PROF), so a loaded machine does not turn into timeouts;
+    # a generous wall-clock limit (ITIMER_REAL) stays as a backstop against blocking
     signal.signal(signal.SIGALRM, _alarm)
+    signal.signal(signal.SIGPROF, _alarm)
     stats = collections.Counter()
     keys = set()
     scheds = set()
@@ -99,17 +106,17 @@ def _worker(args):
         rng = random.Random(seed)
         case = None
         try:
-            signal.setitimer(signal.ITIMER_REAL, run_timeout)
+            _arm(run_timeout)
             case = mod.make_case(i, rng, tier)
             if case is None:
-                signal.setitimer(signal.ITIMER_REAL, 0)
+                _arm(0)
                 i += stride
                 continue
             case["_run"] = {"index": i, "seed": seed, "start": start, "stride": stride, "tier": tier, "base": base}
             res = mod.check(case)
-            signal.setitimer(signal.ITIMER_REAL, 0)
+            _arm(0)
         except RunTimeout:
-            signal.setitimer(signal.ITIMER_REAL, 0)
+            _arm(0)
             if getattr(mod, "TIMEOUT_IS_VIOLATION", False) and case is not None:
                 res = Result()
                 res.v(pid + ".c", "%s.c:timeout" % pid, "run exceeded %ss wall: does not terminate" % run_timeout)
@@ -118,7 +125,7 @@ def _worker(args):
                 i += stride
                 continue
         except Exception:
-            signal.setitimer(signal.ITIMER_REAL, 0)
+            _arm(0)
             harness.append({"index": i, "seed": seed, "error": traceback.format_exc(), "case": _strip(case)})
             i += stride
             continue
@@ -133,8 +140,9 @@ def _worker(args):
         if len(samples) < 2 and (start < 4):
             samples.append(_strip(case))
         i += stride
-    signal.setitimer(signal.ITIMER_REAL, 0)
+    _arm(0)
     signal.signal(signal.SIGALRM, signal.SIG_IGN)
+    signal.signal(signal.SIGPROF, signal.SIG_IGN)
     return {"done": done, "stats": stats, "keys": keys, "scheds": scheds, "ctxs": ctxs, "viols": viols,
             "harness": harness[:5], "n_harness": len(harness), "samples": samples}
 
